@@ -105,7 +105,23 @@ def label(repo: Repo) -> List[Ob]:
                 k += 1
                 (obs.append(ok("LABEL", co, f"contract:{lab}", P, i, f"{LABEL_VECTORS[lab]} contracts to {lab}")) if vec == want[lab] else
                  obs.append(bad("LABEL", co, f"contract:{lab}", P, i, f"the vector {vec!r:.60} is contracted to label {lab}, whose vector is {LABEL_VECTORS[lab]}: expand(contract(x)) != x")))
-    if k < 4 and table_name and table_name in src(co.node) and table_name in src(ex.node):
+    # the recognition loops over labels and compares with the very function expand() builds the vector with:
+    #   for lab in <labels>: if allclose(self.state, self._vec(lab)): self.state = lab
+    shared = None
+    if k < 4:
+        ex_orig = ex.orig or ex.node
+        builders = {method_call(a.value)[1] for a in walk_no_nested(ex_orig) if isinstance(a, ast.Assign) and src(a.targets[0]) == "self.state" and isinstance(a.value, ast.Call)
+                    and method_call(a.value) and src(method_call(a.value)[0]) in ("self", "Polarization") and len(a.value.args) == 1 and src(a.value.args[0]) == "self.state"}
+        for l_ in [x for x in walk_no_nested(co.node) if isinstance(x, ast.For) and isinstance(l_t := x.target, ast.Name)]:
+            for i in [x for x in l_.body if isinstance(x, ast.If)]:
+                t = i.test
+                if isinstance(t, ast.Call) and call_np(t) == "allclose" and len(t.args) >= 2 and src(t.args[0]) == "self.state" and isinstance(t.args[1], ast.Call) \
+                        and method_call(t.args[1]) and method_call(t.args[1])[1] in builders and [src(a_) for a_ in t.args[1].args] == [l_.target.id] \
+                        and any(isinstance(s_, ast.Assign) and src(s_.targets[0]) == "self.state" and src(s_.value) == l_.target.id for s_ in i.body):
+                    shared = method_call(t.args[1])[1]
+    if k < 4 and shared:
+        obs.append(ok("LABEL", co, "contract:table", P, co.node, f"contract() recognises a label by comparing with `{shared}(label)`, the function expand() builds the vector with"))
+    elif k < 4 and table_name and table_name in src(co.node) and table_name in src(ex.node):
         obs.append(ok("LABEL", co, "contract:table", P, co.node, f"expand and contract read the same table `{table_name}`"))
     elif k < 4:
         raise AnalysisError(f"LABEL: {k} label recognitions in Polarization.contract (floor 4)")
@@ -186,6 +202,10 @@ def book_absorb(repo: Repo) -> List[Ob]:
             k += 1
             released = False
             is_ps = typer.classes(ast.parse(owner, mode="eval").body) == {"ProductState"}
+            # an untyped owner whose member list is read or cleared beside its block (`X.state` with `X.state_objs`) is a product space:
+            # subsystems and envelopes have no state_objs
+            is_ps = is_ps or (not typer.classes(ast.parse(owner, mode="eval").body)
+                              and any(isinstance(y, ast.Attribute) and y.attr == "state_objs" and src(y.value) == owner for s_ in cands for y in ast.walk(s_)))
             kinds_seen.add("product-space" if is_ps else "envelope" if expand_src(fi.node, ast.parse(owner, mode="eval").body).endswith(".envelope") else "own")
             for s in cands:
                 for x in [s] + list(walk_no_nested(s)):
@@ -240,13 +260,21 @@ def valid(repo: Repo) -> List[Ob]:
     obs: List[Ob] = []
     P = ("C17",)
 
+    import re as _re
+    _sfx = _re.compile(r"__h\d+")
+
+    def _p(pred):
+        return lambda t: pred(_sfx.sub("", t))       # locals of a spliced helper carry a suffix
+
     def has_raise_under(fi: FuncInfo, pred) -> bool:
+        pred = _p(pred)
         for i in [x for x in walk_no_nested(fi.node) if isinstance(x, ast.If)]:
             if (pred(src(i.test)) or pred(expand_src(fi.node, i.test))) and any(isinstance(y, ast.Raise) for b in i.body for y in [b] + list(walk_no_nested(b))):
                 return True
         return False
 
     def has_assert(fi: FuncInfo, pred) -> bool:
+        pred = _p(pred)
         return any(isinstance(x, ast.Assert) and (pred(src(x.test)) or pred(expand_src(fi.node, x.test))) for x in walk_no_nested(fi.node))
 
     def live_operands(fi: FuncInfo) -> bool:
@@ -579,6 +607,57 @@ def dim_norm(repo: Repo) -> List[Ob]:
         good = bool(norm_nodes) and cfg.must_pass_through(u, norm_nodes)
         (obs.append(ok("DIM-NORM", fi, f"estimator-input#{i}", P, u.ast, "the estimator receives a normalised state on every path")) if good else
          obs.append(bad("DIM-NORM", fi, f"estimator-input#{i}", P, u.ast, "the dimension estimator can receive an un-normalised traced-out state: its threshold test stops too early (or never) and the automatic cutoff is wrong")))
+    # the trial operation the estimator iterates is the operation that is going to be applied: same type, the caller's parameters as given
+    from ..cfg import resolve_at
+    kwname = fi.node.args.kwarg.arg if fi.node.args.kwarg is not None else None
+    from .dispatch import match_arms
+    est_arms, _m = match_arms(fi, "FockOperationType")
+    for i, u in enumerate(uses, 1):
+        for x in walk_node(u):
+            if not (isinstance(x, ast.Call) and (dotted(x.func) or "").endswith("FockDimensions")):
+                continue
+            op_arg = x.args[1] if len(x.args) >= 2 else next((k.value for k in x.keywords if k.arg == "operation"), None)
+            key = f"estimator-operation#{i}"
+            if op_arg is None or kwname is None:
+                obs.append(skip("DIM-NORM", fi, key, P, x, "cannot find the operation handed to the estimator"))
+                continue
+            oc = resolve_at(cfg, u, op_arg, depth=3, keep=(kwname,))
+            if not (isinstance(oc, ast.Call) and (dotted(oc.func) or "").split(".")[-1] == "Operation" and oc.args):
+                obs.append(skip("DIM-NORM", fi, key, P, x, f"`{src(op_arg)[:50]}` is not an Operation(...) construction that can be read here"))
+                continue
+            why = None
+            t_ = resolve_at(cfg, u, oc.args[0], depth=3, keep=(kwname,))
+            if not (isinstance(t_, ast.Name) and t_.id == "self"):
+                mem = t_.attr if isinstance(t_, ast.Attribute) and src(t_.value) == "FockOperationType" else None
+                arm_of = [m_ for m_, a_ in est_arms.items() if any(getattr(y, "lineno", -1) == x.lineno and isinstance(y, ast.Call) and src(y) == src(x) for b_ in a_.body for y in ast.walk(b_))]
+                if mem is None:
+                    why = f"the trial operation's type `{src(t_)[:40]}` is neither `self` nor a member of FockOperationType"
+                elif arm_of and mem not in arm_of:
+                    why = f"the arm of {'/'.join(arm_of)} sizes the space with a trial {mem} operation"
+            for k in oc.keywords:
+                v = resolve_at(cfg, u, k.value, depth=3, keep=(kwname,))
+                if k.arg is None:
+                    if not (isinstance(v, ast.Name) and v.id == kwname):
+                        why = f"`**{src(k.value)[:40]}` = `{src(v)[:60]}` is not the caller's keyword dictionary"
+                    elif any(d is not cfg.entry for d in cfg.reaching_defs(u, kwname)):
+                        why = f"`{kwname}` is re-bound before the trial operation is built"
+                else:
+                    if not (isinstance(v, ast.Subscript) and src(v.value) == kwname and isinstance(v.slice, ast.Constant) and v.slice.value == k.arg):
+                        why = f"parameter `{k.arg}={src(v)[:40]}` is not the caller's value of that parameter"
+            if not any(k.arg is None for k in oc.keywords) and why is None and not oc.keywords:
+                why = "the trial operation is built without the caller's parameters"
+            # kwargs rewritten in place before the construction
+            for n_ in cfg.nodes:
+                for y in walk_node(n_):
+                    if ((isinstance(y, ast.Subscript) and isinstance(y.ctx, (ast.Store, ast.Del)) and src(y.value) == kwname)
+                            or (isinstance(y, ast.Call) and method_call(y) and src(method_call(y)[0]) == kwname and method_call(y)[1] in ("update", "pop", "setdefault", "clear", "popitem"))) \
+                            and u in cfg.reachable([n_]):
+                        why = why or f"`{src(y)[:40]}` rewrites the caller's parameters before the trial operation is built"
+            if why:
+                obs.append(bad("DIM-NORM", fi, key, P, x, why + ": the estimator sizes the space for a different operator than the one that is applied (e.g. |alpha| instead of alpha: "
+                               "a displacement back towards the vacuum and one away from it need very different cutoffs)"))
+            else:
+                obs.append(ok("DIM-NORM", fi, key, P, x, f"trial operation built from `**{kwname}` as given"))
     # the normaliser agrees with the representation: the traced-out state is a ket (d,1) or a density matrix (d,d); the estimator
     # accumulates |amplitude|^2 resp. diagonal entries up to the threshold, so a ket must have norm 1 and a matrix trace 1
     def under_shape_test(stmt: ast.AST) -> bool:
